@@ -294,6 +294,104 @@ theorem comment_detected (p T tail : Bytes) (hp : (60 : UInt8) ∉ p) (hT : (45 
   rw [hx] at hn
   exact comment_token_reported _ x T tail 4 hn hxs hty hst hl (by simp) (by simp) hm
 
+/-- the comment state at offset 4 of `<!--` `T` followed by end of input or by a terminator `--…>` / `-!>`, where no terminator
+(`-` NUL* (`-`|`!`) `>`) starts inside `T` — dashes inside `T` are allowed -/
+theorem comment_state_general (h4 : H) (T tail : Bytes) (hs4 : h4.s = 60 :: 33 :: 45 :: 45 :: (T ++ tail)) (hp4 : h4.pos = 4)
+    (hT : ∀ j n, j < T.length → ¬ ComEnd (T ++ tail) j n)
+    (htail : tail = [] ∨ ∃ e r, (e = 45 ∨ e = 33) ∧ tail = 45 :: e :: 62 :: r) :
+    ∃ x, stateComment h4 = .ok (true, x) ∧ x.s = h4.s ∧ x.tokType = .tagComment ∧ x.tokStart = 4 ∧ x.tokLen = T.length := by
+  have hget : ∀ k, (60 :: 33 :: 45 :: 45 :: (T ++ tail) : Bytes)[4 + k]? = (T ++ tail)[k]? := by
+    intro k; rw [show 4 + k = k + 1 + 1 + 1 + 1 by omega]; simp
+  have hlen : (60 :: 33 :: 45 :: 45 :: (T ++ tail) : Bytes).length = 4 + (T.length + tail.length) := by simp; omega
+  have hle4 : h4.pos ≤ h4.s.length := by rw [hs4, hp4, hlen]; omega
+  obtain ⟨hfound, hnone⟩ := comment_first_terminator h4 hle4
+  have hshift : ∀ j n, ComEnd h4.s (4 + j) n → ComEnd (T ++ tail) j n := by
+    intro j n ⟨c1, c2, c3, c4⟩
+    rw [hs4] at c1 c2 c3 c4
+    refine ⟨by rw [← hget]; exact c1, fun k hk => ?_, ?_, ?_⟩
+    · have := c2 k hk
+      rw [show 4 + j + 1 + k = 4 + (j + 1 + k) by omega, hget] at this; exact this
+    · rw [show 4 + j + 1 + n = 4 + (j + 1 + n) by omega, hget] at c3; exact c3
+    · rw [show 4 + j + 2 + n = 4 + (j + 2 + n) by omega, hget] at c4; exact c4
+  have hearly : ∀ j n, h4.pos ≤ j → j < 4 + T.length → ¬ ComEnd h4.s j n := by
+    intro j n hj hlt hce
+    rw [hp4] at hj
+    rw [show j = 4 + (j - 4) by omega] at hce
+    exact hT (j - 4) n (by omega) (hshift _ _ hce)
+  rcases htail with rfl | ⟨e, r, he, rfl⟩
+  · have hno : ∀ i n, h4.pos ≤ i → ¬ ComEnd h4.s i n := by
+      intro i n hi hce
+      by_cases hlt : i < 4 + T.length
+      · exact hearly i n hi hlt hce
+      · have := hce.1
+        rw [hs4, List.getElem?_eq_none (by rw [hlen]; simp; omega)] at this
+        cases this
+    rw [hnone hno]
+    unfold ranOut
+    refine ⟨_, rfl, rfl, rfl, hp4, ?_⟩
+    simp only [hs4, hp4, hlen]; simp
+  · have hce : ComEnd h4.s (4 + T.length) 0 := by
+      rw [hs4]
+      refine ⟨?_, fun k hk => absurd hk (by omega), ?_, ?_⟩
+      · rw [hget, List.getElem?_append_right (Nat.le_refl _)]; simp
+      · rw [show 4 + T.length + 1 + 0 = 4 + (T.length + 1) by omega, hget, List.getElem?_append_right (by omega)]
+        rcases he with rfl | rfl <;> simp
+      · rw [show 4 + T.length + 2 + 0 = 4 + (T.length + 2) by omega, hget, List.getElem?_append_right (by omega)]; simp
+    rw [hfound (4 + T.length) 0 hce (by omega) (fun j m hj hlt => hearly j m hj hlt)]
+    unfold foundAt
+    refine ⟨_, rfl, rfl, rfl, hp4, ?_⟩
+    simp [emit, hp4]
+
+/-- **`<!-- … -->`, general form**: the text up to the first comment terminator (or to the end of input) carries a marker;
+dashes inside the text are allowed as long as no terminator `-` NUL* (`-`|`!`) `>` starts inside it -/
+theorem comment_detected_general (p T tail : Bytes) (hp : (60 : UInt8) ∉ p)
+    (hT : ∀ j n, j < T.length → ¬ ComEnd (T ++ tail) j n)
+    (htail : tail = [] ∨ ∃ e r, (e = 45 ∨ e = 33) ∧ tail = 45 :: e :: 62 :: r) (hm : Marker T) :
+    isXSSCtx (p ++ 60 :: 33 :: 45 :: 45 :: (T ++ tail)) 0 = .ok true := by
+  rw [data_prefix _ p hp]
+  have hn := first_bang (45 :: 45 :: (T ++ tail))
+  unfold stateMarkupDeclarationOpen at hn
+  simp only [emit, init, List.drop_succ_cons, List.drop_zero] at hn
+  simp only [List.take_succ_cons] at hn
+  obtain ⟨w1, w2⟩ := win_first (45 :: 45 :: (T ++ tail).take 5) 45 (45 :: (T ++ tail).take 5) rfl (by decide) (by decide)
+  have w3 : decide ((60 :: 33 :: 45 :: 45 :: (T ++ tail)).length - 2 ≥ 2) = true := by simp
+  simp only [w1, w2, w3, Bool.and_false, Bool.false_eq_true, ↓reduceIte, List.take_succ_cons, List.take_zero, beq_self_eq_true,
+    Bool.and_self] at hn
+  obtain ⟨x, hx, hxs, hty, hst, hl⟩ := comment_state_general
+    ({ s := 60 :: 33 :: 45 :: 45 :: (T ++ tail), pos := 2 + 2, state := St.tagOpen } : H) T tail rfl rfl hT htail
+  rw [hx] at hn
+  exact comment_token_reported _ x T tail 4 hn hxs hty hst hl (by simp) (by simp) hm
+
+/-- a text free of `>` holds no comment terminator, and none that starts in it reaches into the `-->` / `-!>` after it -/
+theorem no_comEnd_of_gt_free (T tail : Bytes) (hT : (62 : UInt8) ∉ T)
+    (htail : tail = [] ∨ ∃ e r, (e = 45 ∨ e = 33) ∧ tail = 45 :: e :: 62 :: r) :
+    ∀ j n, j < T.length → ¬ ComEnd (T ++ tail) j n := by
+  intro j n hj ⟨_, hz, _, hgt⟩
+  by_cases hin : j + 2 + n < T.length
+  · rw [List.getElem?_append_left hin] at hgt
+    exact not_mem_get 62 T hT _ hgt
+  · rcases htail with rfl | ⟨e, r, he, rfl⟩
+    · rw [List.getElem?_eq_none (by simp; omega)] at hgt; cases hgt
+    · -- the dash that opens the tail sits where the terminator needs a NUL or its `>`
+      by_cases hn0 : j + 2 + n = T.length
+      · rw [hn0, List.getElem?_append_right (Nat.le_refl _)] at hgt
+        simp at hgt
+      · by_cases hn1 : j + 2 + n = T.length + 1
+        · rw [hn1, List.getElem?_append_right (by omega)] at hgt
+          simp only [show T.length + 1 - T.length = 1 by omega] at hgt
+          rcases he with rfl | rfl <;> simp at hgt
+        · -- `j + 2 + n ≥ |T| + 2`: index `|T|` lies in the NUL run
+          have := hz (T.length - (j + 1)) (by omega)
+          rw [show j + 1 + (T.length - (j + 1)) = T.length by omega, List.getElem?_append_right (Nat.le_refl _)] at this
+          simp at this
+
+/-- **`<!-- … -->` with dashes in the body**: a text free of `>` (dashes allowed), followed by end of input, `-->` or `-!>`
+(hence also `--!>`), carries a marker -/
+theorem comment_detected_dashes (p T tail : Bytes) (hp : (60 : UInt8) ∉ p) (hT : (62 : UInt8) ∉ T)
+    (htail : tail = [] ∨ ∃ e r, (e = 45 ∨ e = 33) ∧ tail = 45 :: e :: 62 :: r) (hm : Marker T) :
+    isXSSCtx (p ++ 60 :: 33 :: 45 :: 45 :: (T ++ tail)) 0 = .ok true :=
+  comment_detected_general p T tail hp (no_comEnd_of_gt_free T tail hT htail) htail hm
+
 /-- the `<%` state at offset 2 of `<%` `T` `%>…` (or `<%` `T` to the end of input), `T` free of `%` -/
 theorem percent_state_result (h2 : H) (T tail : Bytes) (hs2 : h2.s = 60 :: 37 :: (T ++ tail)) (hp2 : h2.pos = 2)
     (hT : (37 : UInt8) ∉ T) (htail : tail = [] ∨ ∃ r, tail = 37 :: 62 :: r) :
